@@ -48,7 +48,13 @@ type chaos struct {
 	ackMon *ackMonitor
 	fences int
 
-	t0               time.Time
+	t0 time.Time
+	// what the leader of the current term may count for each follower without having received an acknowledgement:
+	// the head the follower reported when it was fenced, or the point the leader truncated it to
+	base             map[string]int64
+	commitAtInstall  int64           // commit offset the leader of the current term started from (hook leader.become.tracker)
+	initialCommit    sync.Map        // term -> commit offset the tracker of that term's leader was created with
+	evAtElect        int             // number of cluster events at the last election
 	amnesiac         map[string]bool // wiped and not yet caught up: does not count towards a fencing quorum
 	rejoinFailures   map[string]int
 	allowWipeOnStuck bool
@@ -89,6 +95,14 @@ type ackMonitor struct {
 	acked     map[string]int64 // "follower@term" -> highest offset acknowledged on a stream of that term since the node's last restart
 	ackedOld  map[string]int64 // the same, before the node's last restart
 	firstSent map[int64]bool   // streams whose first append has been seen
+	sent      map[string]int64 // "follower@term" -> highest offset in any acknowledgement sent on a stream of that term, ever
+}
+
+func (m *ackMonitor) everSent(follower string, term int64) (int64, bool) {
+	m.mu.Lock()
+	defer m.mu.Unlock()
+	v, ok := m.sent[fmt.Sprintf("%s@%d", follower, term)]
+	return v, ok
 }
 
 func (m *ackMonitor) ackedBy(follower string, term int64) (int64, bool) {
@@ -144,6 +158,15 @@ func readEntry(w wal.Wal, off int64) (*proto.LogEntry, error) {
 
 func (m *ackMonitor) OnAckSent(s *rc.ReplStream, offset int64) {
 	ch := m.ch
+	// every acknowledgement that leaves is on record before it can reach the leader
+	m.mu.Lock()
+	if m.sent == nil {
+		m.sent = map[string]int64{}
+	}
+	if k := fmt.Sprintf("%s@%d", s.Follower, s.Term); offset > m.sent[k] || m.sent[k] == 0 {
+		m.sent[k] = offset
+	}
+	m.mu.Unlock()
 	fn, ln := ch.c.Node(s.Follower), ch.c.Node(s.Leader)
 	if fn == nil || ln == nil || fn.Down() || ln.Down() {
 		return
@@ -392,6 +415,7 @@ func (ch *chaos) elect(fenceSet []*rc.Node) bool {
 		// the new leader must be able to reach the followers it is given (BecomeLeader waits for their acks)
 		ch.c.Link(newLeader, n).SetStalled(false)
 	}
+	evBefore := len(ch.c.Events())
 	if err := ch.c.Install(ch.term, newLeader, ch.rf, heads); err != nil {
 		ch.log("become-leader %s failed: %v", newLeader, err)
 		if os.Getenv("VERIF_DEBUG_STACKS") != "" {
@@ -404,11 +428,22 @@ func (ch *chaos) elect(fenceSet []*rc.Node) bool {
 	}
 	ch.leader = newLeader
 	ch.attached = map[string]bool{}
-	for n := range heads {
+	ch.base = map[string]int64{}
+	ch.evAtElect = evBefore
+	ch.commitAtInstall = 1 << 62 // unknown: nothing is judged in this term
+	if v, ok := ch.initialCommit.Load(ch.term); ok {
+		ch.commitAtInstall = v.(int64)
+	}
+	for n, h := range heads {
 		if n != newLeader {
 			ch.attached[n] = true
+			ch.base[n] = h.Offset
+			if tr := ch.c.LastTruncateTo(n); tr != nil && tr.Term == ch.term && tr.HeadEntryId != nil {
+				ch.base[n] = tr.HeadEntryId.Offset
+			}
 		}
 	}
+	ch.checkCommitSupport()
 	ch.r.Count("elections", 1)
 	ch.log("leader %s term %d followers %v", newLeader, ch.term, keysOf(ch.attached))
 	return true
@@ -432,7 +467,17 @@ func (ch *chaos) rejoinStragglers() {
 		if n.Name == ch.leader || ch.attached[n.Name] || n.Down() {
 			continue
 		}
-		if err := ch.c.Rejoin(ch.term, ch.leader, n); err != nil {
+		head, err := ch.c.RejoinHead(ch.term, ch.leader, n)
+		if err == nil && ch.base != nil {
+			b := head.Offset
+			if tr := ch.c.LastTruncateTo(n.Name); tr != nil && tr.Term == ch.term && tr.HeadEntryId != nil && tr.HeadEntryId.Offset < b {
+				b = tr.HeadEntryId.Offset
+			}
+			if old, ok := ch.base[n.Name]; !ok || b > old {
+				ch.base[n.Name] = b
+			}
+		}
+		if err != nil {
 			ch.log("rejoin %s failed: %v", n.Name, scrubErr(err))
 			ch.rejoinFailures[n.Name]++
 			if ch.rejoinFailures[n.Name] >= 3 && ch.allowWipeOnStuck {
@@ -449,6 +494,60 @@ func (ch *chaos) rejoinStragglers() {
 		ch.attached[n.Name] = true
 		ch.r.Count("rejoins", 1)
 		ch.log("rejoin %s", n.Name)
+	}
+}
+
+// checkCommitSupport: a commit offset that advanced in the current term must be backed by a majority: the leader plus
+// followers that either sent an acknowledgement for at least that offset on a stream of this term, installed a
+// snapshot reaching it, or were attached with a reported (or truncated-to) head of at least that offset. Everything
+// compared is on record before the leader can have acted on it.
+func (ch *chaos) checkCommitSupport() {
+	if ch.leader == "" || ch.base == nil {
+		return
+	}
+	ln := ch.c.Node(ch.leader)
+	if ln == nil || ln.Down() {
+		return
+	}
+	st, err := ln.GetStatus()
+	if err != nil || st.Status != proto.ServingStatus_LEADER || st.Term != ch.term {
+		return
+	}
+	c := st.CommitOffset
+	if c <= ch.commitAtInstall {
+		return
+	}
+	evs := ch.c.Events()
+	support := []string{ch.leader}
+	seen := map[string]int64{}
+	for _, n := range ch.c.Nodes {
+		if n.Name == ch.leader {
+			continue
+		}
+		best, have := int64(-1), false
+		if b, ok := ch.base[n.Name]; ok {
+			best, have = b, true
+		}
+		if v, ok := ch.ackMon.everSent(n.Name, ch.term); ok && (!have || v > best) {
+			best, have = v, true
+		}
+		if ch.evAtElect <= len(evs) {
+			for _, e := range evs[ch.evAtElect:] {
+				if e.Kind == "snapshot-ack" && e.Node == n.Name && (!have || e.Offset > best) {
+					best, have = e.Offset, true
+				}
+			}
+		}
+		if have {
+			seen[n.Name] = best
+			if best >= c {
+				support = append(support, n.Name)
+			}
+		}
+	}
+	ch.r.Count("commit_offsets_checked_against_acknowledgements", 1)
+	if len(support) < ch.rf/2+1 {
+		ch.viol("C03", "commit-offset-without-acknowledgements-from-a-quorum", fmt.Sprintf("leader %s (term %d, replication factor %d) reports commit offset %d (it started from %d when it was installed); followers' highest acknowledged / reported positions in this term: %v — only %v back that offset", ch.leader, ch.term, ch.rf, c, ch.commitAtInstall, seen, support))
 	}
 }
 
@@ -855,6 +954,11 @@ func installApplyMonitor(ch *chaos) {
 	}
 	vhook.Set("qat.commit", func(_ string, args ...any) { note(fmt.Sprintf("commit(%p)=%d head=%d", args[0], args[1], args[2])) })
 	vhook.Set("qat.head", func(_ string, args ...any) { note(fmt.Sprintf("head(%p)=%d", args[0], args[1])) })
+	vhook.Set("leader.become.tracker", func(_ string, args ...any) {
+		if len(args) >= 4 {
+			ch.initialCommit.Store(args[1].(int64), args[3].(int64))
+		}
+	})
 	vhook.Set("db.apply.before", func(_ string, args ...any) {
 		if len(args) < 2 {
 			return
